@@ -308,9 +308,20 @@ def run_criteria(desc, M):
                     Ez = {k: (v and k[0] != z) for k, v in E.items()}
                     M.check(not dconn(Ez, z, y, [x]), "front-door: back-door paths from Z to Y blocked by X", detail=f"{desc['edges']} {S}")
             # minimal adjustment set via the proper back-door graph
-            if not E[(min(x, y), max(x, y))] and lat is None:
+            if not E[(min(x, y), max(x, y))]:
                 ms = ci.get_minimal_adjustment_set(names[x], names[y])
                 if ms is not None:
+                    # forbidden nodes of the adjustment criterion: nodes on a directed path X ~> Y (other than X) and their descendants
+                    onpath = {v for p in paths for v in p[1:]}
+                    forbidden = {d for v in onpath for d in range(n) if D[v][d]}
+                    bad = [s_ for s_ in ms if names.index(s_) in forbidden]
+                    key = None
+                    if lat is not None and bad and all(names.index(s_) in onpath for s_ in bad):
+                        key = "criteria:known-minimal-adjustment-set-with-latent-confounder-contains-mediator"
+                    M.check(not bad, "minimal adjustment set contains no mediator / descendant of a mediator (adjusting for it would block the causal path)",
+                            detail=f"{desc['edges']} latent={None if lat is None else names[lat]} X={names[x]} Y={names[y]}: {ms}", key=key)
+                    M.check(lat is None or names[lat] not in ms, "minimal adjustment set contains no latent variable", detail=f"{ms}")
+                if ms is not None and lat is None:
                     # proper back-door graph: remove the first edge of every directed path x ~> y
                     Ep = dict(E)
                     for p in paths:
